@@ -984,6 +984,11 @@ def _reader_rules(R, C, info):
             word4 = any(c.op == "cmp" and ((c.args[0] == "!=" and not pol) or (c.args[0] == "==" and pol)) and any(tm.is_const(x, 4) for x in c.args[1:]) for c, pol in g)
             if same32 or word4:
                 continue
+            # the OPPOSITE test dominates the uncast path: the array is handed back exactly when its dtype is NOT uint32
+            diff32 = any(c.op == "cmp" and ((c.args[0] == "!=" and pol) or (c.args[0] == "==" and not pol)) and any(tm.dotted(x) == "numpy.uint32" for x in c.args[1:]) and any(_is_dtype_side(x) for x in c.args[1:]) for c, pol in g)
+            if diff32:
+                ok_dt = False
+                continue
             if any(tm.contains(c, lambda x: tm.dotted(x) == "numpy.uint32" or (x.op == "attr" and x.args[1] in ("dtype", "itemsize"))) for c, pol in g):
                 ok_dt = None if ok_dt is not False else False  # a dtype-related guard in a form not read here
                 continue
